@@ -50,6 +50,11 @@ func H_C19_cgo() {
 	case 3:
 		impHint(f, 0, other)
 	}
+	otherFirst := nondetBool("other_first")
+	if otherFirst && (kind == 1 || kind == 3) {
+		b := &bytes.Buffer{}
+		Qual(other, "X").render(f, b, nil)
+	}
 	qualC := nondetBool("qual_c")
 	if qualC {
 		name := nondetString("name")
@@ -58,7 +63,7 @@ func H_C19_cgo() {
 		verifAssert(err == nil, "no error")
 		verifAssert(b.String() == "C."+name, "cgo symbols are referenced as C.name")
 	}
-	if kind == 1 || kind == 3 {
+	if !otherFirst && (kind == 1 || kind == 3) {
 		b := &bytes.Buffer{}
 		Qual(other, "X").render(f, b, nil)
 	}
